@@ -88,19 +88,19 @@ BL(bm, p, z) == IF z \in DOMAIN bm THEN (bm[z][1] + bm[z][2]) * p[Blank] ELSE 0
 
 Frame ==
   /\ t < T
-  /\ LET p == P[t + 1]
-         full == [z \in Cands(beam) |-> <<NB(beam, p, z), BL(beam, p, z)>>]
-         pos == {z \in DOMAIN full : full[z][1] + full[z][2] > 0}
-         k == IF Cardinality(pos) < W THEN Cardinality(pos) ELSE W
-         ml == t + 1
-         tot(z) == Scaled(full[z][1] + full[z][2], z, ml)
-         thr == IF k = 0 THEN 0
-                ELSE Max({s \in {tot(z) : z \in pos} : Cardinality({z \in pos : tot(z) >= s}) >= k})
-         must == {z \in pos : tot(z) > thr}
-         tied == {z \in pos : tot(z) = thr}
-     IN \E X \in kSubset(k - Cardinality(must), tied) :      \* ties at the k-th mass are free
-          /\ beam' = [z \in must \cup X |-> full[z]]
-          /\ pruned' = (pruned \/ (must \cup X) # pos)
+  \* (TLC re-evaluates a LET definition at every use; binding through a singleton set evaluates it once)
+  /\ \E full \in {[z \in Cands(beam) |-> <<NB(beam, P[t + 1], z), BL(beam, P[t + 1], z)>>]} :
+     \E tot \in {[z \in {x \in DOMAIN full : full[x][1] + full[x][2] > 0} |->
+                   Scaled(full[z][1] + full[z][2], z, t + 1)]} :       \* positive-mass candidates, comparable masses
+       LET pos == DOMAIN tot
+           k == IF Cardinality(pos) < W THEN Cardinality(pos) ELSE W
+       IN \E thr \in {IF k = 0 THEN 0
+                        ELSE Max({s \in {tot[z] : z \in pos} : Cardinality({z \in pos : tot[z] >= s}) >= k})} :
+            LET must == {z \in pos : tot[z] > thr}
+                tied == {z \in pos : tot[z] = thr}
+            IN \E X \in kSubset(k - Cardinality(must), tied) :      \* ties at the k-th mass are free
+                 /\ beam' = [z \in must \cup X |-> full[z]]
+                 /\ pruned' = (pruned \/ (must \cup X) # pos)
   /\ t' = t + 1
   /\ prevbeam' = beam
   /\ UNCHANGED <<P, lmv, W>>
